@@ -106,22 +106,21 @@ def direct_check(case, obs):
         return "contradicts L1: parse_file panicked instead of returning records or a located parse error"
     if p[0] != "ok":
         return None
-    stack = []          # (file, include-site chain)
-    chain_of = {"": []}
+    stack = []          # (file, chain of the parent, governing include of the parent)
     cur_chain = []      # location chain suffix (include sites, innermost first)
-    last_include = None
-    expect_files = None
+    last_include_loc = None
     for i, r in enumerate(p[1]):
         if r[0] == "begin-include":
-            if last_include is None:
+            if last_include_loc is None:
                 return "contradicts L1: begin marker for %r not governed by an include record" % r[1]
-            stack.append((r[1], cur_chain))
-            cur_chain = last_include + cur_chain if False else [last_include_loc[0]] + last_include_loc[1:]
+            stack.append((r[1], cur_chain, last_include_loc))
+            cur_chain = list(last_include_loc)
+            last_include_loc = None
             continue
         if r[0] == "end-include":
             if not stack or stack[-1][0] != r[1]:
                 return "contradicts L1 (C14_markers_nested): end marker %r does not close the innermost open include" % r[1]
-            _, cur_chain = stack.pop()
+            _, cur_chain, last_include_loc = stack.pop()
             continue
         l = loc_of(r)
         if l is not None:
@@ -131,7 +130,6 @@ def direct_check(case, obs):
             if l[1:] != cur_chain:
                 return "contradicts L1 (C14_chain): record %d has include chain %r, enclosing include sites are %r" % (i, l[1:], cur_chain)
         if r[0] == "include":
-            last_include = True
             last_include_loc = l
             # the files spliced for this include: following begin markers at this nesting level, ascending
             j, depth, fl = i + 1, 0, []
